@@ -5,6 +5,7 @@
 package vsync
 
 import (
+	"fmt"
 	"sync"
 
 	"verif/explore"
@@ -75,10 +76,19 @@ func (m *Mutex) TryLock() bool {
 // State for state keys.
 func (m *Mutex) Held() bool { return m.locked }
 
+// RWMutex models sync.RWMutex as Go implements it: writers exclude each other first; a writer
+// that has announced itself (it may still be waiting for the active readers to leave) makes
+// every later RLock wait - also one nested in a goroutine that already holds a read lock, which
+// is the documented way to deadlock - and Unlock admits all readers that queued up meanwhile
+// before the next writer can announce itself.
 type RWMutex struct {
-	real    sync.RWMutex
-	writer  bool
-	readers int
+	real      sync.RWMutex
+	wheld     bool // the writers' mutex
+	announced bool // a writer holds the lock or waits for the readers to drain
+	writer    bool // that writer has the lock
+	readers   int  // active readers (including those admitted by the last Unlock)
+	waiting   int  // readers queued behind the announced writer
+	epoch     int  // number of Unlocks
 }
 
 func (m *RWMutex) Lock() {
@@ -88,7 +98,13 @@ func (m *RWMutex) Lock() {
 		return
 	}
 	x.Yield("RWMutex.Lock")
-	x.Block("RWMutex.Lock(wait)", func() bool { return !m.writer && m.readers == 0 })
+	x.Block("RWMutex.Lock(writers)", func() bool { return !m.wheld })
+	if x.Aborted() {
+		return
+	}
+	m.wheld = true
+	m.announced = true
+	x.Block("RWMutex.Lock(readers)", func() bool { return m.readers == 0 })
 	if x.Aborted() {
 		return
 	}
@@ -108,6 +124,11 @@ func (m *RWMutex) Unlock() {
 		panic("sync: Unlock of unlocked RWMutex")
 	}
 	m.writer = false
+	m.announced = false
+	m.readers += m.waiting
+	m.waiting = 0
+	m.epoch++
+	m.wheld = false
 	x.Yield("RWMutex.Unlock")
 }
 
@@ -118,11 +139,13 @@ func (m *RWMutex) RLock() {
 		return
 	}
 	x.Yield("RWMutex.RLock")
-	x.Block("RWMutex.RLock(wait)", func() bool { return !m.writer })
-	if x.Aborted() {
+	if !m.announced {
+		m.readers++
 		return
 	}
-	m.readers++
+	m.waiting++
+	epoch := m.epoch
+	x.Block("RWMutex.RLock(wait)", func() bool { return m.epoch != epoch })
 }
 
 func (m *RWMutex) RUnlock() {
@@ -139,6 +162,11 @@ func (m *RWMutex) RUnlock() {
 	}
 	m.readers--
 	x.Yield("RWMutex.RUnlock")
+}
+
+// State renders the modelled state (for explorer state keys).
+func (m *RWMutex) State() string {
+	return fmt.Sprintf("w%v/a%v/h%v/r%d/q%d", m.wheld, m.announced, m.writer, m.readers, m.waiting)
 }
 
 type WaitGroup struct {
